@@ -327,7 +327,8 @@ def phase(ctx):
     committed = as_committed(ctx)
     # ---- design level
     expect = {"MC_MMDVMClient_safety.cfg": None, "MC_MMDVMClient_live.cfg": "EventuallyInSync", "MC_MMDVMClient_fixed.cfg": None,
-              "MC_MMDVMClient_impatient.cfg": "AcceptOnlyOnAccept", "MC_MMDVMClient_drop.cfg": "AcceptOnlyOnAccept"}
+              "MC_MMDVMClient_impatient.cfg": "AcceptOnlyOnAccept", "MC_MMDVMClient_drop.cfg": "AcceptOnlyOnAccept",
+              "MC_MMDVMClient_dmr.cfg": "DmrOnlyWhenLoggedIn"}
     dumps = {}
     for cfg, want in expect.items():
         dump = os.path.join(ctx.rundir, cfg.replace(".cfg", ".trace.json"))
@@ -368,6 +369,16 @@ def phase(ctx):
                                 "response: the client logs 'Master Login Accept' and sends its configuration while the master has not authenticated it "
                                 "(TLC: AcceptOnlyOnAccept refuted, counterexample replayed on the real class)")
                 rig.close()
+    if "MC_MMDVMClient_dmr.cfg" in dumps:
+        r = replay_counterexample(ctx, dumps["MC_MMDVMClient_dmr.cfg"], "safety counterexample dmr")
+        if r is not None:
+            rig, steps, last = r
+            ctx.note("mmdvm_client_counterexample_replayed_steps_dmr", steps)
+            if last["c"]["st"] != "Ok" and last["c"]["inq"] >= 1 and rig.project()["inq"] >= 1:
+                ctx.outside("MMDVMClientProtocol: DMR data from the master is put on queue_incoming whatever the connection status - after the "
+                            "socket dropped (status New, not logged in) a DMRD datagram is still forwarded "
+                            "(TLC: DmrOnlyWhenLoggedIn refuted, counterexample replayed on the real class)")
+            rig.close()
     # ---- code -> spec: random histories judged by Trace_MMDVMClient
     import random
     rng = random.Random(ctx.seed * 131 + 5)
